@@ -115,7 +115,7 @@ func (prefixConcEngine) Run(ctx *fw.Ctx, cs any) {
 	}
 	s := newSrv6([]handler.Handler6{h}, loIface())
 	base := model.NewPrefixModel(pool, c.Alloc)
-	r := &pdRun{ctx: ctx, c: &prefixCase{Pool: c.Pool, Alloc: c.Alloc}, rng: rng, pool: pool, m: base.Clone(), s: s, nmsgs: map[int]int{}}
+	r := &pdRun{ctx: ctx, c: &prefixCase{Pool: c.Pool, Alloc: c.Alloc}, rng: rng, pool: pool, m: base.Clone(), s: s, nmsgs: map[int]int{}, lastTyp: map[int]byte{}}
 	for i := 0; i < c.Clients; i++ {
 		r.duids = append(r.duids, genDUID(rng, i))
 	}
